@@ -1521,7 +1521,8 @@ func AggrFunExpr(query *Query, current Map, expr sqlparser.AggrFunc, opts ...Exp
 		}
 		return result, nil
 	}
-	rs, ok := query.singletonExecutions[name]
+	key := "aggr." + sqlparser.String(expr)
+	rs, ok := query.singletonExecutions[key]
 	if !ok {
 		all := Map{"*": query.filtered}
 		slice, err := AggrFuncArgReader(query, all, sqlparser.Exprs{Exprs: expr.GetArgs()})
@@ -1532,7 +1533,7 @@ func AggrFunExpr(query *Query, current Map, expr sqlparser.AggrFunc, opts ...Exp
 		if err != nil {
 			return nil, err
 		}
-		query.singletonExecutions[name] = result
+		query.singletonExecutions[key] = result
 		return result, nil
 	}
 	return rs, nil
